@@ -175,7 +175,7 @@ impl Monitor for C09 {
         "cwv-direct (cw4-group) + cwv-app (cw4-stake, every 4th history)"
     }
     fn histories(&self, tier: Tier) -> u64 {
-        tier.pick(300, 24_000)
+        tier.pick(1_000, 24_000)
     }
     fn mandatory(&self) -> Vec<&'static str> {
         vec![
